@@ -95,6 +95,24 @@ let () =
             Buffer.add_string b (match val_equiv fuel w O (explode n1) (explode n2) with
               | Ok (s, m) -> (if s then "1" else "0") ^ "," ^ qs m ^ " "
               | OutOfFuel -> "F " | Crash -> "X ")) names) names
+        | "VB" | "AB" ->
+          (* batched public routes: per name the analyser's own scale and map, per ordered pair the validator's (status,
+             multiplier) and the analyser's verdict *)
+          let names = List.concat (List.mapi (fun mi (k, us) -> if mi = 0 || k = "L" then List.map fst us else []) models) in
+          List.iter (fun n ->
+            let n' = explode n in
+            let sc = match ana_scale fuel w O n' with Ok q -> qs q | OutOfFuel -> "F" | Crash -> "X" in
+            let mp = match ana_map fuel w O n' with
+              | Ok m -> let l = List.sort compare (List.filter_map (fun (k, v) ->
+                          if qzero v || implode k = "dimensionless" then None else Some (implode k ^ "=" ^ qs v)) m) in
+                if l = [] then "{}" else String.concat "," l
+              | OutOfFuel -> "F" | Crash -> "X" in
+            Buffer.add_string b (sc ^ ";" ^ mp ^ " ")) names;
+          Buffer.add_string b "| ";
+          List.iter (fun n1 -> List.iter (fun n2 ->
+            let v = match val_equiv fuel w O (explode n1) (explode n2) with
+              | Ok (s, m) -> (if s then "1" else "0") ^ "," ^ qs m | OutOfFuel -> "F" | Crash -> "X" in
+            Buffer.add_string b (v ^ ";" ^ rb (ana_equiv fuel w O (explode n1) (explode n2)) ^ " ")) names) names
         | "V" | "A" ->
           ignore (next t);
           let n1 = explode (next t) in
